@@ -72,6 +72,25 @@ def h_pbf_block(I, job):
     else: I.reach('rejected')
 
 
+def setup_xml(I):
+    I.overrides[C06.SEND] = lambda I_, q, b: I_.call('@verif_model_send', [q, b])
+
+
+def h_xml_events(I, job):
+    """XMLParser::start_element / characters / end_element inside <osm><changeset> with a symbolic event list (balanced by construction)"""
+    n = job['n']
+    em = I.new_obj(n, 'events', 'heap')
+    for k in range(n):
+        e = I.named('ev%d' % k, 8); I.assume(z3.And(z3.UGE(I.term(e, 8), 1), z3.ULE(I.term(e, 8), 6)))
+        I.store(em + k, i8, I.concretize(e, 'event'))
+    out = I.new_obj(2048, 'out', 'heap'); ol = I.new_obj(4, 'ol', 'heap')
+    rc = I.concretize(I.call('@verif_xml_events', [em, n, out, 2048, ol]), 'rc'); I.observe('rc', rc)
+    if rc == 3: raise Finding('exception-type', 'an exception not derived from std::exception leaves the XML callbacks')
+    I.reach('end')
+    if rc == 0: I.reach('accepted')
+    else: I.reach('rejected')
+
+
 def harnesses(tier):
     q = tier == 'quick'
     K = 3 if q else 4
@@ -90,5 +109,8 @@ def harnesses(tier):
                 jobs=[dict(keylen=3), dict(keylen=2, keys_vals=[1, 2, 1, 2, 0]), dict(keylen=1, keys_vals=[1, 9, 0]), dict(keylen=1, keys_vals=[1, 2]), dict(keylen=1, user_sid=1)] + [dict(keylen=1, mutate=m) for m in ((3, 9, 14, 17, 20, 23, 26) if q else range(2, 30))],
                 desc='PBFPrimitiveBlockDecoder on a block with one dense node and one tag: arbitrary bytes (including NUL) inside the string-table entries, out-of-range string indexes (tags and the delta-coded user string index of DenseInfo, negative included), unterminated keys_vals, and one arbitrary byte at structural positions: memory-safe decoding and complete traversal of the delivered node (tags)',
                 bounds='1 node, string table of 3 entries, <= 3 symbolic bytes per job'),
+        Harness('xml_changeset_events', 'xml', h_xml_events, setup=setup_xml, reach=('end', 'accepted', 'rejected'), sanitize=True, tests=[dict(_job=0, ev0=1, ev1=6, ev2=5)], jobs=[dict(n=k) for k in ((3, 4, 5) if q else (3, 4, 5, 6))],
+                desc='XMLParser element callbacks (start_element, characters, end_element) inside <osm><changeset> for every well-nested sequence of <discussion>, <comment>, <text>, character data, <tag> and end events: memory-safe, std exceptions only, the delivered changeset (discussion comments, tags) is traversed completely in an exact-size copy',
+                bounds='event lists of length <= %d over 6 event kinds; expat (tokenising, well-formedness) is not encoded' % (5 if q else 6)),
     ]
     return hs
